@@ -2416,9 +2416,12 @@ fn gen_c12(lvl: u8) -> Vec<Scenario> {
         CycleWithPeer,
         /// V's handler panics while an ask it has just sent is still queued at the busy peer P
         AskUnwound,
+        /// nobody is meant to crash: V's handler has two asks in flight at once (both to Q, which never asks anybody)
+        OverlappingAsks,
     }
     let mut crashes = vec![
         Crash::AskUnwound,
+        Crash::OverlappingAsks,
         Crash::StartPanic,
         Crash::StartErr,
         Crash::HandlerPanic(1),
@@ -2479,6 +2482,7 @@ fn gen_c12(lvl: u8) -> Vec<Scenario> {
                 Crash::HandlerPanic(2) => mv1 = mv1.out(Outcome::Panic(4)),
                 Crash::HandlerPanic(3) => d3 = d3.out(Outcome::Panic(4)),
                 Crash::AskUnwound => d2 = d2.steps(vec![Step::JoinAskPanic { slot: REG_BASE + 1, msg: MsgSpec::m1(ids.next()) }]),
+                Crash::OverlappingAsks => d2 = d2.steps(vec![Step::JoinAsk { slot_a: REG_BASE + 2, msg_a: MsgSpec::quick(ids.next()), slot_b: REG_BASE + 2, msg_b: MsgSpec::m1(ids.next()) }]),
                 Crash::SelfAskDeadlock => d2 = d2.steps(vec![send(SendKind::Ask, REG_BASE, MsgSpec::quick(ids.next()))]),
                 // V asks P while P (in work1) is asking V: a genuine cycle, the detector kills one of the two
                 Crash::CycleWithPeer => d2 = d2.steps(vec![send(SendKind::Ask, REG_BASE + 1, MsgSpec::quick(ids.next()))]),
